@@ -9,7 +9,7 @@
    name.  `reads cfg t` = [build] passunsafeenv ++ [build] passenv ++ target pass_unsafe_env ++ target pass_env
    ++ (HOME, only if a secret of the target contains "~").  `with_env t e`: the same target with its env dict listed
    in another order (a Go map has none). *)
-From PlzV Require Import Base.Harness Model.C10 Proof.C10 Proof.C10_Gen.
+From PlzV Require Import Base.Harness Model.C10 Proof.C10 Proof.C10_Gen Proof.C10_Sandbox.
 From PlzV Require Gen.C10Env.
 From Coq Require Import Permutation.
 
@@ -72,6 +72,68 @@ Proof.
         (conj rule_stream_single (conj config_stream_single unhashed))))).
 Qed.
 Print Assumptions C10_partial.
+
+(* Follow-up 1: the known collision class, exactly.  The unchanged framing name "=" value is injective as soon as no
+   pass_env name and no value (in either caller) contains "=": equal hashed bytes then mean equal values for EVERY
+   pass_env variable - whatever number of variables changed together.  (A collision of the known class therefore needs
+   a "=" inside a value; a collision between "="-free values is a different defect.) *)
+Theorem C10_framing :
+  forall t pre post c1 c2,
+    (forall n, In n (opt_list (t_pass_env t)) -> no_eq n /\ no_eq (getenv c1 n) /\ no_eq (getenv c2 n)) ->
+    rule_stream pre post t c1 = rule_stream pre post t c2 ->
+    forall n, In n (opt_list (t_pass_env t)) -> getenv c1 n = getenv c2 n.
+Proof. exact rule_stream_injective_no_eq. Qed.
+Print Assumptions C10_framing.
+
+(* Follow-up 2: from the environment map to the PROCESS.  `action_env mode uid net mount caller e` is the environment
+   of the process started by Executor.ExecWithTimeout for the name=value list e: ExecCommand's preset entries
+   (SANDBOX_UID / SHARE_NETWORK / SHARE_MOUNT for sandboxed commands), e appended, os/exec's "empty list = inherit the
+   parent" and "last entry wins", and - built-in sandbox - `plz sandbox` rewriting $TMP_DIR to /tmp/plz_sandbox.
+   `build_env_sb sx` is BuildEnvironment for a target with the sandbox attributes sx.
+   For every sandbox mode, every sandbox configuration, all configurations/targets/callers/enumeration orders:
+   (a) the process environment is determined by configuration, target and the LISTED caller variables;
+   (b) every variable the process sees is a key of the environment map or one of ExecCommand's fixed entries, and its
+       value is (a function f, the same for all variables, of) the LAST entry of the map's list, else the fixed entry
+       - never anything of the caller. *)
+Theorem C10_sandbox :
+  (forall mode uid net mount sx cfg t tmp c1 c2 e1 e2,
+      NoDup (map fst (t_env t)) -> Permutation e1 (t_env t) -> Permutation e2 (t_env t) ->
+      agree c1 c2 (reads cfg t) ->
+      action_env mode uid net mount c1 (build_env_sb sx cfg (with_env t e1) tmp c1)
+      = action_env mode uid net mount c2 (build_env_sb sx cfg (with_env t e2) tmp c2))
+  /\ (forall mode uid net mount caller sx cfg t tmp a,
+        action_env mode uid net mount caller (build_env_sb sx cfg t tmp caller) = Some a ->
+        (forall k v, lookup k a = Some v ->
+           In k (map fst (build_env_sb sx cfg t tmp caller)) \/ In k (map fst (exec_preset mode uid net mount)))
+        /\ exists f : str -> str, forall k,
+             lookup k a = option_map f (match entry_of k (build_env_sb sx cfg t tmp caller) with
+                                        | Some v => Some v
+                                        | None => entry_of k (exec_preset mode uid net mount) end)).
+Proof.
+  split; [exact action_env_determined|].
+  intros mode uid net mount caller sx cfg t tmp a Ha. split.
+  - intros k v Hk. exact (action_env_keys _ _ _ _ _ _ _ k v (build_env_sb_nonempty sx cfg t tmp caller) Ha Hk).
+  - exact (action_env_lookup _ _ _ _ _ _ _ (build_env_sb_nonempty sx cfg t tmp caller) Ha).
+Qed.
+Print Assumptions C10_sandbox.
+
+(* Non-vacuity of the two follow-up theorems: a sandboxed target under the built-in sandbox, two callers that differ in
+   an unlisted variable; the action sees the pass_env variable, the rewritten temp dir, the three fixed entries and no
+   CI_JOB_TOKEN.  And two "="-free callers with different values have different streams. *)
+Example C10_followup_nonvacuous :
+  let cfg := empty_cfg [] in
+  let t := simple_target (Some [s "T_A"]) [(s "X1", s "$TMP_DIR/x")] in
+  let sx := {| sb_target := true; sb_resolve := true; sb_dirs := [s "/etc/ssl"] |} in
+  let c1 := [(s "T_A", s "1"); (s "CI_JOB_TOKEN", s "hunter2")] in
+  let c2 := [(s "T_A", s "1"); (s "USER", s "me")] in
+  let a1 := action_env SbBuiltin (s "0") true true c1 (build_env_sb sx cfg t (s "/r/plz-out/tmp/t._build") c1) in
+  a1 = action_env SbBuiltin (s "0") true true c2 (build_env_sb sx cfg t (s "/r/plz-out/tmp/t._build") c2)
+  /\ (exists a, a1 = Some a /\ lookup (s "T_A") a = Some (s "1") /\ lookup (s "CI_JOB_TOKEN") a = None
+        /\ lookup (s "X1") a = Some (s "/tmp/plz_sandbox/x") /\ lookup (s "TMP_DIR") a = Some (s "/tmp/plz_sandbox")
+        /\ lookup (s "SANDBOX_DIRS") a = Some (s "/etc/ssl") /\ lookup (s "SANDBOX_UID") a = Some (s "0")
+        /\ lookup (s "SHARE_MOUNT") a = Some (s "0"))
+  /\ rule_stream [] [] t c1 <> rule_stream [] [] t [(s "T_A", s "2")].
+Proof. vm_compute. split; [reflexivity|]. split; [eexists; repeat split; reflexivity|discriminate]. Qed.
 
 (* Non-vacuity. A target with pass_env, an env dict with a cross reference, a configuration with passenv and
    passunsafeenv; two callers that differ in an unlisted variable (LEAK), in the unsafe one (CFG_U) and in nothing
